@@ -1,6 +1,6 @@
 (* Decoder of the integer-list encoding of core-fragment programs (see tools/langenc.py).
    Unverified glue of the correspondence check. *)
-From MJ Require Import Common.Base Lang.Syntax.
+From MJ Require Import Common.Base Lang.Syntax Lang.Meta Lang.Interp.
 
 Definition binop_of (z : Z) : binop :=
   match z with 0 => OAdd | 1 => OSub | 2 => OMul | 3 => OFloorDiv | 4 => ORem | _ => OConcat end.
@@ -81,11 +81,26 @@ Fixpoint dexpr (fuel : nat) (l : list Z) {struct fuel} : option (expr * list Z) 
                       end) (Z.to_nat nk) r2) (fun '(kw, r3) => Some (ECall f args kw, r3))
         | [] => None
         end)
+    | 18 :: n :: r =>
+        obind ((fix go (n : nat) (l : list Z) : option (list (expr * expr) * list Z) :=
+                  match n with
+                  | O => Some ([], l)
+                  | S n => obind (dexpr fuel l) (fun '(k, l1) => obind (dexpr fuel l1) (fun '(v, l2) =>
+                           obind (go n l2) (fun '(es, l3) => Some ((k, v) :: es, l3))))
+                  end) (Z.to_nat n) r) (fun '(ps, r1) => Some (EMap ps, r1))
     | _ => None
     end
   end.
 
 Definition EFUEL := 200%nat.
+
+(* assignment targets: 0 x | 1 x y *)
+Definition dtarget (l : list Z) : option (target * list Z) :=
+  match l with
+  | 0 :: x :: r => Some (TVar x, r)
+  | _ :: x :: y :: r => Some (TPair x y, r)
+  | _ => None
+  end.
 
 Fixpoint dstmt (fuel : nat) (l : list Z) {struct fuel} : option (stmt * list Z) :=
   match fuel with
@@ -115,6 +130,12 @@ Fixpoint dstmt (fuel : nat) (l : list Z) {struct fuel} : option (stmt * list Z) 
                | x :: l0 => obind (dexpr EFUEL l0) (fun '(e, l1) => obind (go n l1) (fun '(es, l2) => Some ((x, e) :: es, l2)))
                | [] => None end
       end in
+    let dtbinds := fix go (n : nat) (l : list Z) : option (list (target * expr) * list Z) :=
+      match n with
+      | O => Some ([], l)
+      | S n => obind (dtarget l) (fun '(t, l0) =>
+               obind (dexpr EFUEL l0) (fun '(e, l1) => obind (go n l1) (fun '(es, l2) => Some ((t, e) :: es, l2))))
+      end in
     match l with
     | 0 :: n :: r => obind (take_n (Z.to_nat n) r) (fun '(s, r1) => Some (SRaw s, r1))
     | 1 :: r => obind (dexpr EFUEL r) (fun '(e, r1) => Some (SEmit e, r1))
@@ -127,10 +148,7 @@ Fixpoint dstmt (fuel : nat) (l : list Z) {struct fuel} : option (stmt * list Z) 
                   end) (Z.to_nat n) r) (fun '(arms, r1) =>
         obind (dopt_body r1) (fun '(els, r2) => Some (SIf arms els, r2)))
     | 3 :: k :: r =>
-        obind (match k, r with
-               | 0, x :: r1 => Some (TVar x, r1)
-               | _, x :: y :: r1 => Some (TPair x y, r1)
-               | _, _ => None end) (fun '(tg, r1) =>
+        obind (dtarget (k :: r)) (fun '(tg, r1) =>
         obind (dexpr EFUEL r1) (fun '(it, r2) =>
         obind (match r2 with
                | 0 :: r3 => Some (None, r3)
@@ -139,14 +157,14 @@ Fixpoint dstmt (fuel : nat) (l : list Z) {struct fuel} : option (stmt * list Z) 
         obind (dbodyn r3) (fun '(body, r4) =>
         obind (dopt_body r4) (fun '(els, r5) =>
         match r5 with rc :: r6 => Some (SFor tg it flt body els (negb (rc =? 0)), r6) | [] => None end)))))
-    | 4 :: x :: r => obind (dexpr EFUEL r) (fun '(e, r1) => Some (SSet x e, r1))
+    | 4 :: r => obind (dtarget r) (fun '(tg, r0) => obind (dexpr EFUEL r0) (fun '(e, r1) => Some (SSet tg e, r1)))
     | 5 :: x :: r =>
         obind (dbodyn r) (fun '(b, r1) =>
         match r1 with
         | 0 :: r2 => Some (SSetBlock x b None, r2)
         | _ :: f :: r2 => Some (SSetBlock x b (Some f), r2)
         | _ => None end)
-    | 6 :: n :: r => obind (dbinds (Z.to_nat n) r) (fun '(bs, r1) => obind (dbodyn r1) (fun '(b, r2) => Some (SWith bs b, r2)))
+    | 6 :: n :: r => obind (dtbinds (Z.to_nat n) r) (fun '(bs, r1) => obind (dbodyn r1) (fun '(b, r2) => Some (SWith bs b, r2)))
     | 7 :: nm :: np :: r =>
         obind (take_n (Z.to_nat np) r) (fun '(ps, r1) =>
         match r1 with
@@ -167,7 +185,8 @@ Fixpoint dbody_top (fuel n : nat) (l : list Z) : option (list stmt * list Z) :=
   | S n => obind (dstmt fuel l) (fun '(s, l1) => obind (dbody_top fuel n l1) (fun '(ss, l2) => Some (s :: ss, l2)))
   end.
 
-(* values of the render context: 0 undefined | 1 none | 2 bool b | 3 int z | 4 str n c.. | 5 list n v.. *)
+(* values of the render context: 0 undefined | 1 none | 2 bool b | 3 int z | 4 str n c.. | 5 list n v.. |
+   6 map n (k v)..  (the map is built by inserting the pairs in the given order) *)
 Fixpoint dvalue (fuel : nat) (l : list Z) {struct fuel} : option (value * list Z) :=
   match fuel with
   | O => None
@@ -184,6 +203,13 @@ Fixpoint dvalue (fuel : nat) (l : list Z) {struct fuel} : option (value * list Z
                   | O => Some ([], l)
                   | S n => obind (dvalue fuel l) (fun '(v, l1) => obind (go n l1) (fun '(vs, l2) => Some (v :: vs, l2)))
                   end) (Z.to_nat n) r) (fun '(vs, r1) => Some (VList vs, r1))
+    | 6 :: n :: r =>
+        obind ((fix go (n : nat) (l : list Z) : option (list (value * value) * list Z) :=
+                  match n with
+                  | O => Some ([], l)
+                  | S n => obind (dvalue fuel l) (fun '(k, l1) => obind (dvalue fuel l1) (fun '(v, l2) =>
+                           obind (go n l2) (fun '(vs, l3) => Some ((k, v) :: vs, l3))))
+                  end) (Z.to_nat n) r) (fun '(kvs, r1) => Some (VMap (map_of_pairs kvs), r1))
     | _ => None
     end
   end.
